@@ -103,9 +103,24 @@ def same(a, b, exact):
 class P(Prop):
     id = "C09"
     design_ref = "DESIGN.md section 5, C09 and appendix A.4"
-    theorems = []
+    M = "TracklibVerif.Props.C09"
+    theorems = [
+        (M, "TV.C09.decode_succeeds", "with >= 1 candidate per epoch the table-building decoder (what the driver runs) does not fail and records one entry per epoch"),
+        (M, "TV.C09.decoded_valid", "T1: the state inferred at epoch k is an index < n_k, i.e. one of THAT epoch's candidates (no hypothesis on costs)"),
+        (M, "TV.C09.decoded_cost", "T2: hmm_cost at epoch k is the left-fold cost of the decoded prefix; at the last epoch it is the minimum of the last column TAB_VAL[N]"),
+        (M, "TV.C09.decoded_optimal", "T3: the decoded sequence costs no more than any sequence choosing one candidate per epoch, and the last recorded cost is that minimum (monotone accumulation, path costs below the sentinel)"),
+        (M, "TV.C09.decoded_optimal_add", "T3 for + over any ordered additive commutative monoid (N, Z, Q, R)"),
+        (M, "TV.C09.likelihood_form", "T4 (reals): with costs -log(v+eps) of positive likelihoods the decoded sequence has maximal joint likelihood and the recorded final cost is -log of that maximum"),
+        (M, "TV.C09.logs_supplied_same", "T4b: supplying log(v+eps) with log=True gives the decoder the same cost tables, hence the same sequence and costs"),
+        ("TracklibVerif.Lemmas.ViterbiTable", "TV.Viterbi.decode_eq", "refinement: the table-building decode equals the function-style back-pointer path from a minimal last state with the function-style values"),
+        ("TracklibVerif.Lemmas.ViterbiTable", "TV.Viterbi.sentinel_of_paths", "if every candidate sequence's running cost stays below 1e300 then every value compared with best_val is below it"),
+    ]
     partial = []
-    open_statements = []
+    open_statements = [
+        "IEEE-754: monotonicity of float + on finite values and the rounding of math.log are not proved (theorems are over linear orders / ordered monoids / reals); the float streams are covered by the correspondence and the sampled oracle only",
+        "likelihood 0 and the 1e-300 guard: T4 assumes v + eps > 0; with eps = 1e-300 a zero likelihood costs 690.78 instead of +inf (decoding then minimises the number of zero factors first); sampled, not proved",
+        "numpy.argmin on NaN, infinite user-supplied logs and path costs >= 1e300 (sentinel reached) are outside the hypotheses",
+    ]
     modelled = ("tracklib/algo/dynamics.py: HMM.Qlog / HMM.Plog (conversion -log(v + 1e-300) unless log=True), HMM.estimate "
                 "(state compilation, first column, forward recursion with the 1e300 sentinel and strict <, numpy.argmin of the last "
                 "column, back-pointer walk, hmm_inference / hmm_cost); printing, progress bars, __getObs position modes and the "
